@@ -154,6 +154,7 @@ func checkQuantifier(r *Run, prog *Program, a *Anchors, pfx string) {
 		}
 	}
 	headerT := map[string]bool{}
+	headerF := map[string]bool{} // the edge on which the element loop is left because no element remains
 	for _, ff := range foldFns {
 		for _, b := range ff.Blocks {
 			ifi, ok := b.Instrs[len(b.Instrs)-1].(*ssa.If)
@@ -241,6 +242,7 @@ func checkQuantifier(r *Run, prog *Program, a *Anchors, pfx string) {
 			}
 			r.Check(pfx+".visit-order", "induction-variable", prog.pos(ifi.Pos()), loopOK, "the element loop must start at 0, step by +1 and run while i < Len() (index order, every element)")
 			headerT[fmt.Sprintf("%s.b%d:T", ff.Name(), b.Index)] = true
+			headerF[fmt.Sprintf("%s.b%d:F", ff.Name(), b.Index)] = true
 		}
 	}
 	if len(headerT) == 0 {
@@ -339,9 +341,13 @@ func checkQuantifier(r *Run, prog *Program, a *Anchors, pfx string) {
 						}
 					}
 					iters := 0
+					exhausted := false
 					for _, t := range sm.St.trail {
 						if headerT[t] {
 							iters++
+						}
+						if headerF[t] {
+							exhausted = true
 						}
 					}
 					b, e := sm.Results[0], sm.Results[1]
@@ -400,6 +406,9 @@ func checkQuantifier(r *Run, prog *Program, a *Anchors, pfx string) {
 						}
 					default:
 						// exhausted (or empty): all → true, any → false
+						if len(bodies) > 0 && !exhausted {
+							probs = append(probs, fmt.Sprintf("the fold ends after %d element(s) none of which was decisive, without the element loop having run out: every element must be visited until one decides", len(bodies)))
+						}
 						if !(known && bv == isAll && e.IsNil()) {
 							probs = append(probs, fmt.Sprintf("after visiting every element without a decisive one the result must be (%v, nil) for %s; got (%s, %s)", isAll, oc.Name(), shortKey(b), shortKey(e)))
 						}
